@@ -719,11 +719,15 @@ class GroupByReduction(Reduction, GroupByBase):
 
     @functools.cached_property
     def combine_kwargs(self):
-        return {"levels": self.levels, "observed": self.observed, "dropna": self.dropna}
+        return {
+            "levels": self.levels,
+            "observed": self.observed,
+            **_as_dict("dropna", self.dropna),
+        }
 
     @functools.cached_property
     def chunk_kwargs(self):
-        return {"observed": self.observed, "dropna": self.dropna}
+        return {"observed": self.observed, **_as_dict("dropna", self.dropna)}
 
     @functools.cached_property
     def aggregate_kwargs(self):
@@ -731,7 +735,7 @@ class GroupByReduction(Reduction, GroupByBase):
             "levels": self.levels,
             "sort": self.sort,
             "observed": self.observed,
-            "dropna": self.dropna,
+            **_as_dict("dropna", self.dropna),
         }
 
 
